@@ -42,6 +42,8 @@ def enumerate_states(tier):
         for deleg in ["static", "ref"]:
             for attrvis in ["", "pub"]:
                 progs.append(dict(mode="trait", req=tvis, itemvis=attrvis, deleg=deleg))
+        # the selector trait generated for static delegation (`DelegateTr`) follows the original trait too
+        progs.append(dict(mode="trait", req=tvis, itemvis="", deleg="static", probe="selector"))
     states = []
     for pi, p in enumerate(progs):
         paths = ["reexport", "inner"] if p["mode"] == "mod" else ["direct"]
@@ -53,6 +55,8 @@ def enumerate_states(tier):
 
 
 def target_name(s):
+    if s.get("probe") == "selector":
+        return "DelegateTr"
     return "TrImpl" if s["mode"] == "trait" else "Tr"
 
 
@@ -94,7 +98,7 @@ def probe_path(s, from_scope):
 
 
 def probe_src(path):
-    gen = "<()>" if path.endswith("TrImpl") else ""
+    gen = "<()>" if (path.endswith("TrImpl") or path.endswith("DelegateTr")) else ""
     return "pub fn probe() -> u8 { fn need<X: ?Sized + %s%s>() {} 1 }" % (path, gen)
 
 
